@@ -99,6 +99,9 @@ type c19Fn struct {
 
 func c19GenSource(r *core.Rand, nerr int, native bool) string {
 	nf := r.Range(2, 8)
+	if r.Chance(1, 25) {
+		nf = r.Range(24, 40) // large programs (thresholds in the compiler/resolver)
+	}
 	fns := make([]c19Fn, nf)
 	for i := range fns {
 		f := &fns[i]
@@ -223,7 +226,7 @@ func c19GenSource(r *core.Rand, nerr int, native bool) string {
 		for k := 0; k < errAt[i]; k++ {
 			body = append(body, errStmt(i))
 		}
-		body = append(body, fmt.Sprintf(`print "%s", n`, f.name))
+		body = append(body, fmt.Sprintf(`print "%s", n, %d.5, /re%d/`, f.name, i, i))
 		if r.Chance(1, 3) {
 			body = append(body, "return n")
 		}
